@@ -436,14 +436,14 @@ class G:
             opts += ["assign"] * 4
         if depth > 0:
             opts += ["if", "if"]
-            if self.has("loop"):
+            if self.has("loop") and not ctx.get("intry"):   # known finding K11: a loop inside a try block -> 'Bad foam reference'
                 opts += ["for", "for"]
                 if not ctx.get("filelevel"):
                     # known finding K9: `and` with integer literals inside a file-level while loop is rejected; no file-level while
                     opts += ["while"]
             if self.has("list"):
-                opts += ["decllist", "forlist"]
-            if self.has("gener") and self.gens:
+                opts += ["decllist"] + ([] if ctx.get("intry") else ["forlist"])
+            if self.has("gener") and self.gens and not ctx.get("intry"):
                 opts += ["forgen", "forgen"]
             if self.has("exc") and self.excs and not self.p.java and not ctx.get("intry"):
                 opts += ["try", "try"]
